@@ -50,7 +50,7 @@ func mutate(r *gen.Rand, text []byte) ([]byte, string) {
 	rawBytes := map[int]byte{} // rune index -> single raw byte (not UTF-8)
 	n := r.Range(1, 3)
 	for k := 0; k < n; k++ {
-		switch op := r.Intn(14); op {
+		switch op := r.Intn(16); op {
 		case 0, 1: // another letter/digit/punctuation where text is
 			p := pick(textPos)
 			c := gen.Pick(r, alnum)
@@ -139,6 +139,17 @@ func mutate(r *gen.Rand, text []byte) ([]byte, string) {
 				// positions shifted: stop mutating by index
 				return []byte(string(rs)), strings.Join(ops, ";")
 			}
+		case 14, 15: // a sign in front of a zero-padded number
+			var zs []int
+			for _, p := range digitPos {
+				if rs[p] == '0' && p+1 < len(rs) && unicode.IsDigit(rs[p+1]) {
+					zs = append(zs, p)
+				}
+			}
+			p := pick(zs)
+			c := gen.Pick(r, []rune{'-', '-', '+'})
+			ops = append(ops, fmt.Sprintf("sign@%d=%c", p, c))
+			rs[p] = c
 		case 13: // letter where a digit was (numeric fields parsed leniently)
 			p := pick(digitPos)
 			c := gen.Pick(r, []rune("AZ -+.x"))
@@ -169,7 +180,15 @@ func mutateRecords(r *gen.Rand, text []byte) ([]byte, string) {
 	n := r.Range(1, 2)
 	for k := 0; k < n && len(lines) > 1; k++ {
 		i := r.Intn(len(lines))
-		switch r.Intn(8) {
+		switch r.Intn(9) {
+		case 8:
+			// blank or zero the first digit of the 2-3 digit code that follows the record type
+			// (service class, transaction code, addenda type)
+			if len(lines[i]) > 2 {
+				c := " 0"[r.Intn(2)]
+				ops = append(ops, fmt.Sprintf("code@%d=%q", i, c))
+				lines[i] = lines[i][:1] + string(c) + lines[i][2:]
+			}
 		case 0:
 			ops = append(ops, fmt.Sprintf("del-line@%d", i))
 			lines = append(lines[:i:i], lines[i+1:]...)
